@@ -108,7 +108,11 @@ open Verif.Gen.ConcFacts
 def readOnlyCallees : List String :=
   ["bytes.Equal#1", "isGlobalVar#1", "bytes.HasPrefix#1", "bytes.Split#1", "c.w.Write#0", "m.w.Write#0", "w.Write#0", "m.write#0",
    "m.MinifyMimetype#0", "m.MinifyMimetype#3", "parse.EqualFold#1", "parse.ReplaceEntities#1", "parse.ReplaceEntities#2",
-   "parse.ReplaceMultipleWhitespaceAndEntities#1", "parse.ReplaceMultipleWhitespaceAndEntities#2"]
+   "parse.ReplaceMultipleWhitespaceAndEntities#1", "parse.ReplaceMultipleWhitespaceAndEntities#2",
+   -- read-only functions of the standard library and of parse/v2 (second operand of a search / comparison; parse.Copy reads)
+   "bytes.Contains#1", "bytes.Index#1", "bytes.LastIndex#1", "bytes.HasSuffix#1", "bytes.Compare#1", "bytes.EqualFold#1",
+   "bytes.Count#1", "bytes.ContainsAny#0", "bytes.IndexAny#0", "bytes.TrimPrefix#1", "bytes.TrimSuffix#1", "bytes.Equal#0",
+   "bytes.HasPrefix#0", "bytes.Contains#0", "bytes.Index#0", "parse.Copy#0", "parse.EqualFold#0"]
 
 def expectedLockUse : List String :=
   ["M.Add: Lock;Unlock", "M.AddCmd: Lock;Unlock", "M.AddCmdRegexp: Lock;Unlock", "M.AddFunc: Lock;Unlock",
